@@ -323,8 +323,8 @@ impl Env {
             mutated_session: false,
             delivered: Vec::new(),
             trace: Vec::new(),
-            now_ms: 1000,
-            timer_base: 1000,
+            now_ms: clock_start_ms(cfg.clock_epoch),
+            timer_base: clock_start_ms(cfg.clock_epoch),
             sim_events: 0,
             op_idx: 0,
             phase: Phase::Idle,
